@@ -129,7 +129,8 @@ def sc_pwc(d, n, nq, K, weights):
     d.prove(d.eq_arr(Ff, sub.predict_freq(Ksub), 1e-12), "frequencies_equal_fit_on_labeled_subset")
     d.prove(d.eq_arr(full.predict_proba(Kq), sub.predict_proba(Ksub), 1e-12), "probabilities_equal_fit_on_labeled_subset")
     if weights and len(lab) < n:
-        w2 = [ws[i] if i in lab else d.fl(f"v{i}", lo=0.0) for i in range(n)]
+        # any weight at all for the unlabeled samples (NaN and +-inf are accepted by the validation)
+        w2 = [ws[i] if i in lab else d.fl(f"v{i}", nan=True, inf=True) for i in range(n)]
         alt = ParzenWindowClassifier(metric="precomputed", classes=cls).fit(d.zeros((n, 1)), y, d.arr(w2))
         d.prove(d.eq_arr(Ff, alt.predict_freq(Kq), 1e-12), "weights_of_unlabeled_samples_irrelevant")
     d.witness(0 < len(lab) < n, "some_unlabeled")
